@@ -64,7 +64,7 @@ def components():
                 continue
             if e.code_length <= 16 and e.code_dimension <= 8:
                 enc(c, s)
-                if e.code_length - e.code_dimension <= 6 and e.code_length <= 10 and len([k for k in out if k.startswith("decoder Syndrome@")]) < 40:
+                if e.code_length - e.code_dimension <= 4 and e.code_length <= 10 and len([k for k in out if k.startswith("decoder Syndrome@")]) < 40:
                     dec(f"Syndrome@{c}", s, D.SyndromeLookupDecoder)
 
     def hinv():
